@@ -621,6 +621,37 @@ def extras(only=None):
         except Exception as ex:  # noqa: BLE001
             rec['oracle'] = 'callable objects with a false truth value as components: raised %s: %s' % (type(ex).__name__, ex)
         out.append(rec)
+    # components that are decorated callables (functools.wraps): the callable handed over is the component, not what it wraps
+    import functools
+    for k, (sign, shift) in enumerate([(-1.0, 0.0), (1.0, 2.5), (-2.0, -1.0)]):
+        name = 'decorated-%d' % k
+        if only and only != name:
+            continue
+        calls = {'outer': 0, 'inner': 0}
+
+        def inner(x):
+            calls['inner'] += 1
+            return float(np.sum(x ** 2))
+
+        def deco(f, sign=sign, shift=shift):
+            @functools.wraps(f)
+            def outer(x):
+                calls['outer'] += 1
+                return sign * f(x) + shift
+            return outer
+        comp = deco(inner)
+        want = 0
+        want += 3.0 * (sign * float(np.sum(x ** 2)) + shift)
+        rec = {'name': name, 'okey': 'decorated-callable', 'input': {'weights': [3.0], 'component': 'functools.wraps decorator: %r * f(x) + %r' % (sign, shift)},
+               'oracle': None}
+        try:
+            got = WeightedFunction(functions=[comp], weights=[3.0]).pointer(x)
+            if got != want or calls['outer'] != 1:
+                rec['oracle'] = ('a component decorated with functools.wraps: value %r, expected %r (the decorated callable is the component); the '
+                                 'decorated callable was called %d time(s), the wrapped function %d' % (got, want, calls['outer'], calls['inner']))
+        except Exception as ex:  # noqa: BLE001
+            rec['oracle'] = 'a component decorated with functools.wraps raised %s: %s' % (type(ex).__name__, ex)
+        out.append(rec)
     return out
 
 
